@@ -62,8 +62,77 @@ let filter_suite () =
     done
   with End_of_file -> ())
 
+
+(* ---------------------------------------------------------------- suite: reasm *)
+let hexval c = match c with '0'..'9' -> Char.code c - 48 | 'a'..'f' -> Char.code c - 87 | 'A'..'F' -> Char.code c - 55 | _ -> failwith "hex"
+let small_n = Array.init 256 n_of_int
+let bytes_of_hex s =
+  if s = "-" then [] else
+  let n = String.length s / 2 in
+  List.init n (fun i -> small_n.(hexval s.[2*i] * 16 + hexval s.[2*i+1]))
+let hex_of_bytes l =
+  if l = [] then "-" else begin
+    let b = Buffer.create 64 in
+    List.iter (fun x -> Buffer.add_string b (Printf.sprintf "%02x" (int_of_n x))) l; Buffer.contents b end
+
+let render_call = function
+  | CDecoded (p, c) -> Printf.sprintf "D%d:%s" (int_of_n c) (hex_of_bytes p)
+  | CMore None -> "M?"
+  | CMore (Some k) -> Printf.sprintf "M%d" (int_of_n k)
+  | CInvalid c -> Printf.sprintf "EI%d" (int_of_n c)
+  | CSmall c -> Printf.sprintf "ES%d" (int_of_n c)
+  | CPanic -> "P"
+  | CNewRefused -> "NR"
+let render_log l = String.concat "|" (List.map (fun cs -> String.concat "," (List.map render_call cs)) l)
+
+let parse_call s =
+  let n = String.length s in
+  let num from = n_of_int (int_of_string (String.sub s from (n - from))) in
+  if s = "P" then Some CPanic else if s = "NR" then Some CNewRefused
+  else if s = "M?" then Some (CMore None)
+  else if n > 1 && s.[0] = 'M' then Some (CMore (Some (num 1)))
+  else if n > 2 && s.[0] = 'E' && s.[1] = 'I' then (try Some (CInvalid (num 2)) with _ -> None)
+  else if n > 2 && s.[0] = 'E' && s.[1] = 'S' then (try Some (CSmall (num 2)) with _ -> None)
+  else if n > 1 && s.[0] = 'D' then
+    (match String.index_opt s ':' with
+     | Some i -> (try Some (CDecoded (bytes_of_hex (String.sub s (i+1) (n-i-1)), n_of_int (int_of_string (String.sub s 1 (i-1))))) with _ -> None)
+     | None -> None)
+  else None
+let parse_log s =
+  let chunks = String.split_on_char '|' s in
+  try Some (List.map (fun c -> if c = "" then [] else
+      List.map (fun x -> match parse_call x with Some v -> v | None -> raise Exit) (String.split_on_char ',' c)) chunks)
+  with Exit -> None
+
+let reasm_suite () =
+  let idx = ref 0 in
+  let pending = ref None in
+  (try
+    while true do
+      let line = input_line stdin in
+      if String.length line > 2 && line.[0] = 'C' then begin
+        match split_sp line with
+        | _ :: b :: chunks -> pending := Some (n_of_int (int_of_string b), List.map bytes_of_hex chunks)
+        | _ -> failwith ("bad record: " ^ line)
+      end else if String.length line >= 2 && line.[0] = 'I' then begin
+        match !pending with
+        | None -> failwith "I without C"
+        | Some (b, chunks) ->
+          let i = !idx in incr idx;
+          emit (Printf.sprintf "M %d %s" i (render_log (run_log b chunks)));
+          let obs = parse_log (String.sub line 2 (String.length line - 2)) in
+          let v = match obs with Some o -> monitor_C16 b chunks o | None -> false in
+          emit (Printf.sprintf "S %d %d C16 -" i (if v then 1 else 0));
+          let nopanic = not (String.contains line 'P') in
+          emit (Printf.sprintf "S %d %d C03reasm -" i (if nopanic then 1 else 0));
+          pending := None
+      end
+    done
+  with End_of_file -> ())
+
 let () =
   (match Sys.argv with
    | [| _; "filter" |] -> filter_suite ()
+   | [| _; "reasm" |] -> reasm_suite ()
    | _ -> prerr_endline "usage: driver <suite> < cases"; exit 2);
   flush_out ()
